@@ -295,7 +295,26 @@ func runC03(c *Ctx) {
 			})
 			return sg
 		}
-		st, sr := sigOf(ctl), sigOf(crl)
+		// the per-column loop may live in a helper the builder hands its pieces to
+		builderOf := func(f *ssa.Function) *ssa.Function {
+			if sg := sigOf(f); sg.idiom != "" && sg.uncond+sg.cnd > 0 {
+				return f
+			}
+			var found *ssa.Function
+			for _, h := range pkgReach(f, 1)[1:] {
+				if sg := sigOf(h); sg.idiom != "" && sg.uncond+sg.cnd > 0 {
+					if found != nil {
+						return f
+					}
+					found = h
+				}
+			}
+			if found != nil {
+				return found
+			}
+			return f
+		}
+		st, sr := sigOf(builderOf(ctl)), sigOf(builderOf(crl))
 		switch {
 		case st.idiom == "" || sr.idiom == "" || st.idiom == "mixed" || sr.idiom == "mixed" || st.idiom != sr.idiom:
 			r.Note(fmt.Sprintf("shape-unrecognised R03.2: the rule-line builder (%s) and the content-line builder (%s) assemble their pieces in different ways; per-column piece agreement is not evaluated", st.idiom, sr.idiom))
@@ -649,19 +668,39 @@ func runC04(c *Ctx) {
 	wwa := c.Method(ws, false, "WithinWidthAligned")
 	if crl != nil && wwa != nil {
 		n := 0
-		eachInstr(crl, func(in ssa.Instruction) {
-			if staticCallee(in) != wwa {
-				return
-			}
-			n++
-			cc := callCommon(in)
-			_, i0 := sectionOfAny(cc.Args[0])
-			_, i1 := sectionOfAny(cc.Args[1])
-			_, i2 := sectionOfAny(cc.Args[2])
-			s0, _ := sectionOfAny(cc.Args[0])
-			ok := i0 != nil && i0 == i1 && i1 == i2 && s0 == ssa.Value(crl.Params[2])
-			r.Check("R04.2", FuncName(crl), "slot i is cellStrs[i] within colWidths[i] aligned by colAligns[i]", in.Pos(), ok, "the three indexes differ: text, width or alignment of another column is used")
-		})
+		for _, hf := range pkgReach(crl, 2) {
+			hf := hf
+			eachInstr(hf, func(in ssa.Instruction) {
+				if staticCallee(in) != wwa {
+					return
+				}
+				n++
+				cc := callCommon(in)
+				_, i0 := sectionOfAny(cc.Args[0])
+				_, i1 := sectionOfAny(cc.Args[1])
+				_, i2 := sectionOfAny(cc.Args[2])
+				s0, _ := sectionOfAny(cc.Args[0])
+				// the texts are the builder's cellStrs parameter (handed on unchanged when a helper does the loop)
+				isCellStrs := s0 == ssa.Value(crl.Params[2])
+				if hf != crl {
+					isCellStrs = false
+					eachInstr(crl, func(ci ssa.Instruction) {
+						if staticCallee(ci) != hf {
+							return
+						}
+						for k, a := range callCommon(ci).Args {
+							if k < len(hf.Params) && s0 == ssa.Value(hf.Params[k]) && a == ssa.Value(crl.Params[2]) {
+								isCellStrs = true
+							}
+						}
+					})
+				}
+				// the width may be the range value of the widths (for i, w := range e.colWidths): same index by construction
+				sameIdx := i0 != nil && i0 == i2 && (i1 == i0 || rangeValueIndex(cc.Args[1]) == i0)
+				ok := sameIdx && isCellStrs
+				r.Check("R04.2", FuncName(hf), "slot i is cellStrs[i] within colWidths[i] aligned by colAligns[i]", in.Pos(), ok, "the three indexes differ: text, width or alignment of another column is used")
+			})
+		}
 		r.Floor("R04.2", "slot constructions", n, 1)
 	}
 	if rtl := c.MethodOpt(c.Named("texttable", "TextTable"), true, "RowToLinesOfWidthStrings"); rtl != nil {
@@ -1278,4 +1317,10 @@ func flowsToWriter(v ssa.Value, depth int) bool {
 		}
 	}
 	return false
+}
+
+// rangeValueIndex: v is the value variable of a range loop over a slice (for i, v := range s): returns the index i.
+func rangeValueIndex(v ssa.Value) ssa.Value {
+	_, idx := sectionOfAny(v)
+	return idx
 }
